@@ -12,8 +12,10 @@ const char* const H_PROPERTY = "C15";
 #define MAXOPS 6
 enum { Q_MPSC = 0, Q_SPSC, Q_MPSCR };
 static int kind, nprod, npush[MAXP], cons_pops, yield_mask;
-static mpsc_fifo_t mq;
-static spsc_fifo_t sq;
+static mpsc_fifo_t* mq_p; /* the queues live in heap memory with arbitrary previous contents */
+static spsc_fifo_t* sq_p;
+#define mq (*mq_p)
+#define sq (*sq_p)
 static mpscr_fifo_t* rq;
 /* relaxed queue oracle */
 static int last_seq[MAXP], popped_cnt, pushed_done[MAXP], pushed_begun[MAXP];
@@ -28,19 +30,25 @@ static NS void* node_get(size_t sz) {
   return malloc(sz);
 }
 static NS void node_put(void* n) {
+  sim_tso_sync(); /* the node changes hands outside the queue: whatever carries it would order the consumer's stores first */
   if (recycle_on && nrecycle < 64) recycle[nrecycle++] = n;
   else free(n);
 }
 #define MKV(p, q) ((long)(((p) + 1) << 8 | ((q) + 1)))
 static NS int g_inv(int t, int op, long arg) {
+  sim_tso_sync();
   if (op == OP_PUSH) pushed_begun[(arg >> 8) - 1]++;
   return kind == Q_MPSCR ? 0 : hist_invoke(t, op, arg);
 }
 static NS void g_ret(int idx, long res) {
+  sim_tso_sync();
   if (kind != Q_MPSCR) hist_return(idx, res);
   sim_progress();
 }
-static NS void g_push_done(int p) { pushed_done[p]++; }
+static NS void g_push_done(int p) {
+  sim_tso_sync(); /* "completed" means the push's stores have drained */
+  pushed_done[p]++;
+}
 /* snapshot taken when a pop is invoked: pushes completed so far (for the relaxed queue's empty rule) */
 static NS int g_completed_unpopped(void) {
   int c = 0;
@@ -134,6 +142,10 @@ void h_run(void) {
   sim_describe("%s producers=%d pushes=%d concurrent_pops=%d node_recycling=%d preempt=1/%d", kn[kind], nprod, total, cons_pops, recycle_on, c.preempt_inv);
   sim_nontrivial();
   hist_reset(M_FIFO, 0);
+  mq_p = h_dirty_alloc(sizeof *mq_p);
+  sq_p = h_dirty_alloc(sizeof *sq_p);
+  const int tso = wl_pct(40);
+  if (tso) sim_tso_enable_plain();
   if (kind == Q_MPSC) mpsc_fifo_init(&mq);
   else if (kind == Q_SPSC) spsc_fifo_init(&sq);
   else rq = mpscr_fifo_create(nprod);
